@@ -22,7 +22,8 @@ RULE = ("a case is one schedule: 2-4 participants (processes; some with 2 thread
         "Memory.clear or func.clear, on a cold or warm, compressed or plain store; wrappers are created sequentially, then "
         "the coordinator picks which participant performs its next file-system call (PCT-like with <= 3 pre-emptions, "
         "random walk, or - in the 'thread duel' scenario - strict turns between two threads of one process storing the same large entry, or - in the 'refill' scenario - an adversary that lets another participant store a new entry in the function's directory each time participant 0 is about to rmdir it); distinct_nontrivial counts distinct schedules (hash of the granted (participant, op, file) sequence) "
-        "in which at least two participants were interleaved")
+        "in which at least two participants were interleaved"
+        " Thread storms: a third of the rounds name all threads alike, f(3) has one length for all writers, result files left at the end of a round are read back, a logging handler classifies the loads joblib recovered from.")
 ASSUMPTIONS = [
     "only exceptions escaping cached calls (and wrong values) are violations; exceptions inside clear()/reduce_size() "
     "themselves are recorded as observations",
